@@ -353,6 +353,9 @@ def cmd_setup():
 def cmd_check(pid, tier, seed):
     t0 = time.time()
     prop = load_prop(pid)
+    for old in (os.listdir(REPLAYS) if os.path.isdir(REPLAYS) else []):
+        if old.startswith(pid + "-"):
+            os.remove(os.path.join(REPLAYS, old))
     ctx = Ctx(pid, tier, seed)
     gate = proof_gate(pid)
     log(f"[{pid}] proof gate: {'ok' if gate['ok'] else 'FAILED'} "
